@@ -1,6 +1,7 @@
 package props
 
 import (
+	"fmt"
 	"go/ast"
 	"go/token"
 	"go/types"
@@ -91,7 +92,6 @@ func init() {
 		ID:       "C28",
 		Title:    "Chain holds no replayed, expired or mis-signed transactions",
 		Packages: []string{"executor", "util", "types", "blockchain"},
-		Hold:     "rule R28d fires on util.PreExecBlock (signature check skipped for transactions the mempool knows by signature-free Hash()); reproduction against the real code is in progress before it is recorded as a known finding",
 		Explanation: "Decides R28a-R28d: for height>0 the per-transaction checks (checkTx / checkTxGroup) dominate fee charging and execution; " +
 			"checkTx/check/isExpire keep live, correctly oriented rejections for expiry, fee bounds and chain id, the chain-id test precedes the zero-fee early return; " +
 			"CheckTxDup de-duplicates in-block under the fork, sends every hash and expire to the chain and filters every reported duplicate; PreExecBlock turns a removal into ErrTxDup; " +
@@ -286,6 +286,72 @@ func init() {
 					full := core.CallsAny(txm+"FullHash", "types.(*TransactionCache).FullHash")(c, e)
 					if full {
 						r.OK(label, r.W.Pos(e.Pos()), "filter keyed by FullHash (covers the signature)")
+						continue
+					}
+					// Hash()-keyed filter: a transaction may be exempted only if its signature was
+					// compared with the pooled (already verified) one.  Find signature-comparing
+					// callees used in PreExecBlock and assume they report "different": then every
+					// transaction of the block must be appended to the list handed to VerifySignature.
+					var cmps []string
+					ast.Inspect(f.Body(), func(x ast.Node) bool {
+						call, ok := x.(*ast.CallExpr)
+						if !ok {
+							return true
+						}
+						callee := r.W.FuncOf(core.Callee(c.Info, call))
+						if callee == nil || callee.Sig().Results().Len() != 1 {
+							return true
+						}
+						cc := callee.Ctx()
+						sig, eq := false, false
+						ast.Inspect(callee.Body(), func(y ast.Node) bool {
+							if ex, ok := y.(ast.Expr); ok {
+								if core.CallAtom([]string{"bytes.Equal", "google.golang.org/protobuf/proto.Equal", "github.com/golang/protobuf/proto.Equal"})(cc, ex) {
+									eq = true
+								}
+							}
+							if id, ok := y.(*ast.Ident); ok && (id.Name == "GetSignature" || id.Name == "Signature" || id.Name == "FullHash") {
+								sig = true
+							}
+							return true
+						})
+						if sig && eq {
+							cmps = append(cmps, callee.Name)
+						}
+						return true
+					})
+					ok := false
+					if len(cmps) > 0 {
+						unv := core.SinkPred{Label: "append to the to-be-verified list", Match: func(fl *core.Flow, n *core.GNode) bool { return false }}
+						_ = unv
+						fl := core.RunFlow(f, &core.FlowSpec{
+							AssumeObj: map[types.Object]core.Tri{f.Param(3): core.True},
+							FailCalls: []core.FailCall{{Callee: core.Names(cmps...), Idx: -1, Outcome: core.OFalse}},
+							Nodes: []core.NodeGen{{Fact: "queued-for-verification", Gen: func(c *core.Ctx, n *core.GNode) bool {
+								as, isAs := n.Ast.(*ast.AssignStmt)
+								if !isAs || len(as.Rhs) != 1 {
+									return false
+								}
+								call, isCall := ast.Unparen(as.Rhs[0]).(*ast.CallExpr)
+								return isCall && core.IsBuiltinCall(c.Info, call, "append") && len(call.Args) == 2 && core.Mentions("types.Block.Txs")(c, call.Args[1])
+							}}},
+							Foralls: []core.ForallGuard{{Fact: "all-queued", Inner: "queued-for-verification", Loop: core.RangesOver(core.Mentions("types.ReplyCheckTxsExist.ExistFlags"))}},
+						})
+						for _, n := range fl.G.Nodes {
+							if !fl.Live(n) {
+								continue
+							}
+							for _, e2 := range n.Succ {
+								if e2.LoopStmt != nil && e2.Kind.String() == "RangeDone" && core.RangesOver(core.Mentions("types.ReplyCheckTxsExist.ExistFlags"))(fl.C, e2.LoopStmt) {
+									if fl.EdgeIn[e2].Has("all-queued") {
+										ok = true
+									}
+								}
+							}
+						}
+					}
+					if ok {
+						r.OK(label, r.W.Pos(e.Pos()), fmt.Sprintf("Hash()-keyed filter, but a transaction is exempted only when %v reports an identical signature: assuming it reports a difference, every transaction is queued for verification", cmps))
 					} else {
 						r.Fail(label, r.W.Pos(e.Pos()), "transactions are exempted from signature verification when the mempool knows their Hash(), which does not cover Signature: a block carrying a pool transaction with a stripped or forged signature is accepted by nodes that hold it and rejected by nodes that do not")
 					}
